@@ -12,10 +12,15 @@ def main():
     ap.add_argument('--tier', default=None)
     ap.add_argument('--replay', default=None)
     a = ap.parse_args()
-    tier = os.environ.get('VERIF_TIER') or a.tier or 'quick'
+    tier = a.tier or os.environ.get('VERIF_TIER') or 'quick'          # the command line (MANIFEST quick_cmd / thorough_cmd) wins over the environment
     if tier not in ('quick', 'thorough'):
         tier = 'quick'
-    seed = int(os.environ.get('VERIF_SEED', '20260930'))
+    try:
+        seed = int(os.environ.get('VERIF_SEED') or '20260930')
+    except ValueError:
+        import zlib
+        seed = zlib.crc32(os.environ['VERIF_SEED'].encode())          # any string is a seed
+
     mod = importlib.import_module('harness.props.%s' % a.prop.lower())
     ctx = common.Ctx(a.prop, tier, seed)
     if a.replay:
